@@ -3,7 +3,7 @@
     Exact arithmetic throughout: rounding and re-association of the floating-point Reduce are outside. *)
 From Coq Require Import ZArith List Lia Field.
 Import ListNotations.
-From Coq Require Import QArith Qround.
+From Coq Require Import QArith Qround Floats.
 From PGV Require Import Blocks Sums Diagnostics TransposeExec DiagnosticsLink DiagnosticsSlotQ.
 Close Scope Q_scope.
 
@@ -160,13 +160,17 @@ Theorem c17_trapezoid_r_weighted : forall a b t,
 Proof. exact dg_trap2_dot. Qed.
 Print Assumptions c17_trapezoid_r_weighted.
 
-(** (e) the time slot.  The code computes ti = t // dt and idx = ti % saveStep; on integers
-    (floor division) the step number ti of any time in [ti*dt, (ti+1)*dt) lands in slot ti mod saveStep,
-    the slot is a valid index, the next step fills the next slot (cyclically), and saveStep consecutive
-    steps fill pairwise different slots.  With float arguments t // dt is a float: outside the model. *)
-Theorem c17_slot_of_step : forall ti dt s r, (0 < dt -> 0 <= r < dt -> dg_slot (ti * dt + r) dt s = ti mod s)%Z.
+(** (e) the time slot.  The code computes ti = int(t/dt + 0.5) and idx = int(ti % saveStep): the nearest step,
+    half up (t >= 0).  On integers, in exact arithmetic: every time closer than dt/2 to k dt (at most dt/2
+    below it) lands in slot k mod saveStep - in particular t = k dt -, the slot is a valid index, the next
+    step fills the next slot (cyclically), and saveStep consecutive steps fill pairwise different slots. *)
+Theorem c17_slot_of_step : forall k dt s r, (0 < dt -> - dt <= 2 * r < dt -> dg_slot (k * dt + r) dt s = k mod s)%Z.
 Proof. exact dg_slot_of_step. Qed.
 Print Assumptions c17_slot_of_step.
+
+Theorem c17_slot_on_grid : forall k dt s, (0 < dt -> dg_slot (k * dt) dt s = k mod s)%Z.
+Proof. exact dg_slot_on_grid. Qed.
+Print Assumptions c17_slot_on_grid.
 
 Theorem c17_slot_valid_index : forall t dt s, (0 < s -> 0 <= dg_slot t dt s < s)%Z.
 Proof. exact dg_slot_range. Qed.
@@ -278,13 +282,20 @@ Theorem c17_getminmax_canonical : forall c pairs, dg_link_ok c = true ->
 Proof. exact dg_reduced_ext_canonical_spec. Qed.
 Print Assumptions c17_getminmax_canonical.
 
-(** (e') float arguments of collect(), read as the exact rationals they are (Python's float t // dt is the
-    floor of the exact quotient): a time inside step k goes to slot k mod saveStep - in particular t = k dt
-    exactly.  The hypothesis is needed: see [c17_example_slot_tenth]. *)
-Theorem c17_slot_q_of_step : forall (t dt : Q) (k s : Z), (0 < dt)%Q -> (inject_Z k * dt <= t)%Q -> (t < inject_Z (k + 1) * dt)%Q ->
+(** (e') float arguments of collect(), read as the exact rationals they are: a time t with
+    k dt - dt/2 <= t < k dt + dt/2 goes to slot k mod saveStep - so a time accumulated from k steps of dt with
+    an error below dt/2 lands in the slot of step k, whatever dt (0.1, 1/3, ...); on integers this model is
+    [dg_slot].  The evaluation of t/dt + 0.5 in binary64 is [dg_slot_f] (PrimFloat; compared with the
+    implementation by the harness, see also [c17_example_slot_tenth]). *)
+Theorem c17_slot_q_of_step : forall (t dt : Q) (k s : Z), (0 < dt)%Q ->
+  (inject_Z k * dt - dt * (1 # 2) <= t)%Q -> (t < inject_Z k * dt + dt * (1 # 2))%Q ->
   dg_slot_q t dt s = (k mod s)%Z.
 Proof. exact dg_slot_q_of_step. Qed.
 Print Assumptions c17_slot_q_of_step.
+
+Theorem c17_slot_q_on_integers : forall t dt s : Z, (0 < dt)%Z -> dg_slot_q (inject_Z t) (inject_Z dt) s = dg_slot t dt s.
+Proof. exact dg_slot_q_Z. Qed.
+Print Assumptions c17_slot_q_on_integers.
 
 Theorem c17_slot_q_exact : forall (dt : Q) (k s : Z), (0 < dt)%Q -> dg_slot_q (inject_Z k * dt) dt s = (k mod s)%Z.
 Proof. exact dg_slot_q_exact. Qed.
@@ -309,7 +320,7 @@ Example c17_example_trap : dg_trap2 [1; 2; 4; 7]%Z = [1; 3; 5; 3]%Z /\ dg_lsum (
   /\ dg_dot (dg_trap2 [1; 2; 4; 7]%Z) [1; 2; 4; 7]%Z = 48%Z /\ dg_slice [10; 11; 12; 13; 14]%Z 1 3 = [11; 12]%Z.
 Proof. vm_compute. repeat split. Qed.
 
-Example c17_example_slots : map (fun t => dg_slot t 2 3) [0; 2; 4; 6; 8; 9]%Z = [0; 1; 2; 0; 1; 1]%Z
+Example c17_example_slots : map (fun t => dg_slot t 2 3) [0; 2; 4; 6; 8; 9]%Z = [0; 1; 2; 0; 1; 2]%Z
   /\ dg_table 2 3 [0; 2; 4; 6]%Z = [Some 3; Some 1; Some 2].
 Proof. vm_compute. repeat split. Qed.
 
@@ -322,9 +333,13 @@ Example c17_example_model :
   /\ dg_collector_ext false c = Some 1%Z /\ dg_reduced_ext true c [(0, 0)] = Some 18%Z.
 Proof. vm_compute. repeat split. Qed.
 
-(** dt = 0.1 as a double is larger than 1/10: the step at t = 0.5 (five steps) lands in slot 4, not 5 *)
-Example c17_example_slot_tenth : dg_slot_q (1 # 2) (3602879701896397 # 36028797018963968) 6 = 4%Z.
-Proof. vm_compute. reflexivity. Qed.
+(** dt = 0.1 as a double is larger than 1/10: the step at t = 0.5 (five steps) goes to slot 5 - exactly and in
+    binary64 - whereas floor(t / dt) (the code before 56219e6) sent it to slot 4 *)
+Example c17_example_slot_tenth :
+  dg_slot_q (1 # 2) (3602879701896397 # 36028797018963968) 6 = 5%Z
+  /\ dg_slot_f 0.5%float 0x1.999999999999ap-4%float 6 = 5%Z
+  /\ (Qfloor ((1 # 2) / (3602879701896397 # 36028797018963968)) mod 6 = 4)%Z.
+Proof. vm_compute. repeat split. Qed.
 
 (** the end-to-end theorem is not vacuous: a 3-D layout using only the second direction of a 3 x 2 grid *)
 Example c17_example_link :
